@@ -443,14 +443,15 @@ def _spaces(tier):
     sp.append(("valid-2: 52^2 ordered spelling pairs x exponents %s^2 x {'.','/'}" % (["none" if e is None else e for e in e2],),
                52 * 52 * len(e2) ** 2 * 2, c2))
     # 3 factors
-    r3 = [12, 12, 12, 3, 3, 3, 2, 2]
+    e3 = EXPS3 if tier == "thorough" else EXPS3[:2]
+    r3 = [12, 12, 12, len(e3), len(e3), len(e3), 2, 2]
 
     def c3(i):
         a, b, c, ea, eb, ec, s1, s2 = _mixed(i, r3)
-        return {"sub": "valid", "text": G.factor_text(COVER12[a], EXPS3[ea]) + SEPS[s1] + G.factor_text(COVER12[b], EXPS3[eb])
-                + SEPS[s2] + G.factor_text(COVER12[c], EXPS3[ec])}
-    sp.append(("valid-3: 12-symbol cover %s ^3 x exponents {none,-1,2}^3 x separators^2" % (COVER12,),
-               12 ** 3 * 27 * 4, c3))
+        return {"sub": "valid", "text": G.factor_text(COVER12[a], e3[ea]) + SEPS[s1] + G.factor_text(COVER12[b], e3[eb])
+                + SEPS[s2] + G.factor_text(COVER12[c], e3[ec])}
+    sp.append(("valid-3: 12-symbol cover %s ^3 x exponents %s^3 x separators^2"
+               % (COVER12, ["none" if e is None else e for e in e3]), 12 ** 3 * len(e3) ** 3 * 4, c3))
     # quantity texts: number forms x blank runs
     cover = valid_cover()
     rq = [len(cover), len(NUMBER_FORMS), len(QSEPS)]
